@@ -11,11 +11,13 @@ Cmp(l, r) == [k |-> "bin", op |-> "=", l |-> l, r |-> r]
 Num(n) == [k |-> "num", n |-> n]
 CritSrcs == {"T1", "T2", "T5", "A3", "S4", "T1b", "T1f", "A1", "Q6", "C7", "D1", "D2", "U8"}
 Crits == {Cmp(Fld(x, "a"), Fld(y, "b")) : x, y \in CritSrcs}
-         \cup {Cmp([k |-> "call", f |-> "UPPER", args |-> <<Fld(x, "a")>>], Fld(y, "b")) : x, y \in CritSrcs}
+         \cup {Cmp([k |-> "call", f |-> "UPPER", args |-> <<Fld(x, "a")>>], Fld(y, "b")) : x, y \in {"T1", "T2", "A3", "S4", "T1b", "A1", "Q6", "C7", "U8"}}
+         \* subqueries without an alias: the joined one, and a stranger that is no source of the statement
+         \cup {Cmp(Fld(x, "a"), Fld(y, "b")) : x, y \in {"T1", "Q9", "Q10"}}
          \cup {[k |-> "bin", op |-> "AND", l |-> Cmp(Fld(x, "a"), Num("1")), r |-> Cmp(Fld(y, "b"), Num("2"))] : x, y \in {"T1", "T2", "A3", "T1f", "C7"}}
          \* the SAME column name on both sides (references that differ in nothing but their table)
          \cup {Cmp(Fld(x, "a"), Fld(y, "a")) : x, y \in {"D1", "D2", "T1", "T1b", "A1", "S4", "T5"}}
-Items == {"T2", "T5", "A3", "A1", "T1b", "Q6", "C7", "D1", "U8"}
+Items == {"T2", "T5", "A3", "A1", "T1b", "Q6", "C7", "D1", "U8", "Q9"}
 Bases == {"T1", "A3", "S4", "T1f", "U8"}
 J(item, crit) == [m |-> "join", item |-> item, how |-> "", kind |-> "on", crit |-> crit, cols |-> <<>>]
 
